@@ -106,6 +106,8 @@ pub struct RunLog {
     pub sink: Vec<(usize, u64, It)>,
     /// (inspect id, tick, item)
     pub inspect: Vec<(usize, u64, It)>,
+    /// (reference log id, tick, access group, item, value seen) in execution order
+    pub refs: Vec<(usize, u64, u32, It, Vec<It>)>,
     /// ticks at which the watchdog clock fired (in order)
     pub clock: Vec<u64>,
     /// the watchdog raises a panic when the tick counter reaches this value
@@ -123,6 +125,16 @@ impl Log {
     #[inline]
     pub fn inspect(&self, id: usize, tick: u64, x: It) {
         self.0.borrow_mut().inspect.push((id, tick, x));
+    }
+    /// Reading reference closure (C25): logs `(group, item, value seen)`.
+    pub fn ref_read(&self, rid: usize, group: u32, tick: u64, f: u8, x: It, seen: &[It]) -> It {
+        self.0.borrow_mut().refs.push((rid, tick, group, x, seen.to_vec()));
+        crate::cl::ref_read(f, x, seen)
+    }
+    /// Updating reference closure (C25).
+    pub fn ref_write(&self, rid: usize, group: u32, tick: u64, f: u8, x: It, cur: &mut [It]) -> It {
+        self.0.borrow_mut().refs.push((rid, tick, group, x, cur.to_vec()));
+        crate::cl::ref_write(f, x, cur)
     }
     /// Watchdog clock: every generated program contains
     /// `source_iter([()]) -> persist::<'static>() -> for_each(|_| log.clock(tick))`, which fires
@@ -213,7 +225,13 @@ pub struct Predicted {
     /// per step: the ticks it executes
     pub steps: Vec<Vec<TickOut>>,
     pub probes: Vec<&'static str>,
+    /// intermediate results exploded (or a nested loop did not terminate within the cap): the run
+    /// is discarded before the compiled program is executed
+    pub too_big: bool,
 }
+
+/// Streams longer than this make a run vacuous-by-cost; it is discarded.
+pub const MAX_STREAM: usize = crate::interp::BLOWUP;
 
 /// Run the interpreter over the plan. Steps driven by `run_available_sync` tick again while a
 /// non-lazy deferred buffer is non-empty at the end of a tick (and not for lazy-only data). A step
@@ -242,7 +260,8 @@ pub fn predict(prog: &Program, plan: &mut Plan) -> Predicted {
             }
             steps.push(ticks);
         }
-        return Predicted { steps, probes: it.probes.iter().copied().collect() };
+        let too_big = it.loop_cap_hit || steps.iter().flatten().any(|t: &TickOut| t.max_len > MAX_STREAM);
+        return Predicted { steps, probes: it.probes.iter().copied().collect(), too_big };
     }
 }
 
@@ -322,6 +341,47 @@ pub fn compare(prog: &Program, pred: &Predicted, obs: &Observed) -> Option<(Stri
             }
         }
     }
+    // references (C25): per tick and referenced handoff, closures of an earlier access group run
+    // (for all their items) before any closure of a later group, and each sees the settled value
+    let mut got_refs: BTreeMap<(u64, usize), Vec<(u32, It, Vec<It>)>> = BTreeMap::new();
+    for (rid, tick, group, x, seen) in &obs.log.refs {
+        let mut seen = seen.clone();
+        seen.sort();
+        got_refs.entry((*tick, *rid)).or_default().push((*group, *x, seen));
+    }
+    for ticks in &pred.steps {
+        for to in ticks {
+            for (rid, want) in to.refs.iter().enumerate() {
+                let g = got_refs.remove(&(to.tick, rid)).unwrap_or_default();
+                if g.windows(2).any(|w| w[0].0 > w[1].0) {
+                    return Some((
+                        "reference/group_order".into(),
+                        format!("tick {} reference {rid}: closures ran in access-group order {:?}", to.tick, g.iter().map(|e| e.0).collect::<Vec<_>>()),
+                    ));
+                }
+                let mut g2 = g.clone();
+                g2.sort();
+                let mut w2: Vec<(u32, It, Vec<It>)> = want
+                    .iter()
+                    .map(|(gr, x, seen)| {
+                        let mut s = seen.clone();
+                        s.sort();
+                        (*gr, *x, s)
+                    })
+                    .collect();
+                w2.sort();
+                if g2 != w2 {
+                    return Some((
+                        "reference/value_seen".into(),
+                        format!("tick {} reference {rid}: (group, item, value seen) got {:?}, expected {:?}", to.tick, g, want),
+                    ));
+                }
+            }
+        }
+    }
+    if let Some(((tick, rid), v)) = got_refs.into_iter().next() {
+        return Some(("reference/unexpected_tick".into(), format!("reference {rid} was read in tick {tick}, which was not predicted to run: {v:?}")));
+    }
     if let Some(((tick, sid), v)) = got.into_iter().next() {
         return Some(("tick_output/unexpected_tick".into(), format!("sink {sid} received {v:?} in tick {tick}, which was not predicted to run")));
     }
@@ -357,6 +417,9 @@ pub fn run_program(sim: &mut Sim, c: &Compiled, variants: &[(&'static str, ExecF
     }
     let mut plan = draw_plan(sim, prog.n_chans);
     let pred = predict(prog, &mut plan);
+    if pred.too_big {
+        return Outcome { violation: None, nontrivial: false, sim_time: 0, discarded: true };
+    }
     for p in &pred.probes {
         sim.probe(p);
     }
@@ -375,7 +438,7 @@ pub fn run_program(sim: &mut Sim, c: &Compiled, variants: &[(&'static str, ExecF
     sim.state(simcore::fnv_str(&format!("{:?}", pred.steps.iter().flatten().map(|t| &t.sinks).collect::<Vec<_>>())));
     for (vi, (vname, exec)) in variants.iter().enumerate() {
         let obs = exec(&plan, &ticks_per_step);
-        sim.event(0x30 + obs.log.sink.len() as u64, || format!("variant {vi} ({vname}): tick_after={:?} sink log {:?}", obs.tick_after, obs.log.sink));
+        sim.event(0x30 + obs.log.sink.len() as u64, || format!("variant {vi} ({vname}): tick_after={:?} sink log {:?} reference log {:?}", obs.tick_after, obs.log.sink, obs.log.refs));
         if let Some((class, detail)) = compare(prog, &pred, &obs) {
             let class = if vi == 0 { format!("{class}/{}", prog.kind) } else { format!("{class}/{}/variant_{vname}", prog.kind) };
             return Outcome::fail(Violation::new(class, format!("variant {vi} ({vname}): {detail}")), total_ticks as u64);
